@@ -40,7 +40,10 @@ EXPLANATION = (
     "arguments -> parameters -> `self.<attr>` of the constructed class family) into the keys of global caches; every run-time reset "
     "of the generator must be accompanied, on every path through the resetting function (a resetting statement dominates it or "
     "lies on every path to the exit; private helpers are judged at their call sites), by a reset of every cache so keyed - else a "
-    "later model draws a name that still has an entry.  R8 (= C02-R8): a backend only ever switches the process-wide 64-bit mode on.  "
+    "later model draws a name that still has an entry.  R8 (= C02-R8): a backend only ever switches the process-wide 64-bit mode on.  R9: where a value read from a keyed cache "
+    "completes a dict the caller passed in (in the reading function or a callee the cached value is handed to), the caller's explicit "
+    "value wins: the fill is decided by the presence of the key (`k not in d`, setdefault, get(k, default), {**cached, **d}), never "
+    "by the truthiness of the caller's value and never unconditionally.  "
     "NOT decided: names that reach a cache key through a container or an object other than a constructed instance's attribute; equality of results; injectivity of a key "
     "(a key that is a lossy function of the right inputs passes R2); control dependence of cached values (only data flow is "
     "sliced; a method call counts as depending on its whole receiver); state held by instances (ComputeGraph._state_var_hist etc., "
@@ -2509,7 +2512,7 @@ class CacheCompletion:
                 r = T(x.value, depth + 1)
             elif isinstance(x, ast.Call):
                 if isinstance(x.func, ast.Attribute) and x.func.attr in ("items", "values", "copy", "get", "pop", "keys"):
-                    r = T(x.func.value, depth + 1)
+                    r = T(x.func.value, depth + 1) or (x.func.attr in ("get", "pop") and len(x.args) == 2 and T(x.args[1], depth + 1))
                 elif isinstance(x.func, ast.Name) and x.func.id in ("dict", "list", "tuple", "deepcopy", "copy", "sorted", "iter", "next", "enumerate", "zip") \
                         and not self.md._shadowed(f, x.func.id):
                     r = any(T(a, depth + 1) for a in x.args)
